@@ -3,7 +3,7 @@
    - [WI w]: every value / histogram core carries the label pairs make_label_pairs gives for its
      descriptor; a vector's children are keyed by the hash of their values and carry the vector's
      descriptor; a registry holds library collectors keyed by their collector id, with distinct
-     keys, and same-name descriptors are compatible; slots hold handles of the sub-language.
+     keys, and same-name descriptors are compatible; slots hold no custom collectors.
    - [cout w c]: what collecting c returns, as a pure function of the world; a collection
      changes the world only inside histogram cores and does not change any [cout] ([weq]).
    - [reg_shape]: the collected list of a registry satisfies [lib_shape], [payloads_ok], and
@@ -123,7 +123,8 @@ Definition slotwf (w : world) (h : handle) : Prop :=
   | HVec v => (v < length (w_vec w))%nat
   | HRegistry r => (r < length (w_reg w))%nat
   | HPulling d _ => pull_desc d
-  | _ => False
+  | HCustom _ _ => False
+  | _ => True          (* local metrics and timers: nothing is needed of them *)
   end.
 Definition regslots (sl : list handle) : list nat := flat_map (fun h => match h with HRegistry r => [r] | _ => [] end) sl.
 
@@ -132,8 +133,7 @@ Record WI (w : world) : Prop := mkWI {
   wi_h : Forall hwf (w_h w);
   wi_vec : Forall (vecwf (sigs_of w)) (w_vec w);
   wi_reg : Forall (regwf (sigs_of w)) (w_reg w);
-  wi_slots : Forall (slotwf w) (w_slots w);
-  wi_regslots : regslots (w_slots w) = seq 0 (length (w_reg w)) }.
+  wi_slots : Forall (slotwf w) (w_slots w) }.
 
 Lemma WI0 : WI world0.
 Proof. split; cbn; auto. Qed.
@@ -189,10 +189,9 @@ Lemma WI_step w w' :
   (forall x, In x (w_h w') -> In x (w_h w) \/ hwf x) ->
   (forall x, In x (w_vec w') -> In x (w_vec w) \/ vecwf (sigs_of w') x) ->
   (forall x, In x (w_reg w') -> In x (w_reg w) \/ regwf (sigs_of w') x) ->
-  (forall x, In x (w_slots w') -> In x (w_slots w) \/ slotwf w' x) ->
-  regslots (w_slots w') = seq 0 (length (w_reg w')) -> WI w'.
+  (forall x, In x (w_slots w') -> In x (w_slots w) \/ slotwf w' x) -> WI w'.
 Proof.
-  intros [Wv Wh Wc Wr Ws Wrs] Hs Lr Hv Hh Hc Hr Hsl Hrs.
+  intros [Wv Wh Wc Wr Ws] Hs Lr Hv Hh Hc Hr Hsl.
   pose proof Hs as (PV & PH & PC). cbn in PV, PH, PC.
   apply prefix_length in PV, PH, PC. rewrite !map_length in PV, PH, PC.
   split; auto; apply Forall_forall; intros x Hx.
@@ -375,5 +374,4 @@ Proof.
   - rewrite B. auto.
   - rewrite C. auto.
   - rewrite D. auto.
-  - rewrite C, D. apply (wi_regslots _ W).
 Qed.
